@@ -439,12 +439,16 @@ func sortedCopy(v []uint64) []uint64 {
 // Observe reads everything the property talks about: InitialState, FirstIndex, LastIndex,
 // Snapshot, Term(i) for i in 0..n, Entries(lo,hi,0) for all 0<=lo<=hi<=n+1 with hi>=1, and
 // size-limited reads of the whole range.
-func Observe(ctx context.Context, st multiraft.Storage, n uint64) *Obs { return observe(ctx, st, n, false) }
+func Observe(ctx context.Context, st multiraft.Storage, n uint64) *Obs {
+	return observe(ctx, st, n, false)
+}
 
 // ObserveLight is Observe with the (lo,hi) ranges reduced to every suffix [lo,n+1), every
 // prefix [0,hi) and every single index [i,i+1) - used where the same store is read very
 // often (crash images); the entry rows themselves are still all read and compared.
-func ObserveLight(ctx context.Context, st multiraft.Storage, n uint64) *Obs { return observe(ctx, st, n, true) }
+func ObserveLight(ctx context.Context, st multiraft.Storage, n uint64) *Obs {
+	return observe(ctx, st, n, true)
+}
 
 func observe(ctx context.Context, st multiraft.Storage, n uint64, light bool) *Obs {
 	o := &Obs{N: n, Ranges: map[[2]uint64]string{}, Sized: map[uint64]string{}, RangeBelow: map[[2]uint64]uint64{}}
@@ -538,7 +542,9 @@ func (s *Scope) expectRange(lo, hi, maxSize uint64) string {
 // safety-flavoured kinds first).
 func (s *Scope) Diffs(o *Obs) []Diff {
 	var d []Diff
-	add := func(kind, format string, args ...any) { d = append(d, Diff{Kind: kind, Msg: fmt.Sprintf(format, args...)}) }
+	add := func(kind, format string, args ...any) {
+		d = append(d, Diff{Kind: kind, Msg: fmt.Sprintf(format, args...)})
+	}
 	// "never returns entries below the compaction point"
 	for k, min := range o.RangeBelow {
 		if min != 0 && min <= s.Snap.Index {
